@@ -212,3 +212,34 @@ class Matcher:
                 raise Unsupported(f"regex anchor {av}")
             return rest(pos, groups) if ok else None
         raise Unsupported(f"regex node {op}")
+
+
+def regex_once(I, W, kind, pattern, string, flags):
+    """re.match / re.search / re.fullmatch on a (possibly symbolic) string -> SMatch or None"""
+    if not isinstance(pattern, str):
+        if isinstance(pattern, re.Pattern):
+            flags = flags | (pattern.flags & ~re.UNICODE)
+            pattern = pattern.pattern
+        else:
+            raise Unsupported("symbolic regex pattern")
+    if flags & ~(re.MULTILINE | re.UNICODE | re.DOTALL):
+        raise Unsupported(f"regex flags {flags}")
+    if isinstance(string, str) and True:
+        pass
+    cs = chars(string)
+    n = len(cs)
+    prog = parsed(pattern, flags)
+    M = Matcher(I, W, cs, flags)
+    starts = range(0, n + 1) if kind == "search" else [0]
+    for p in starts:
+        if kind == "fullmatch":
+            r = M.seq(list(prog), 0, p, (), lambda p2, g: (p2, g) if p2 == n else None)
+        else:
+            r = M.seq(list(prog), 0, p, (), lambda p2, g: (p2, g))
+        if r is not None:
+            end, groups = r
+            gl = [None] * prog.state.groups
+            for gid, span in groups:
+                gl[gid] = span
+            return SMatch(string, p, end, gl[1:])
+    return None
